@@ -21,7 +21,7 @@ Your task: make ONE small, realistic change to the crate's source under {wt}/src
   (2) the existing test suite still passes: `cd {wt} && cargo test --workspace --no-fail-fast --offline 2>&1 | grep -E "^test result|FAILED|failed|error" ` must show no failure (run it on the unchanged tree first if you want a baseline; it takes a few minutes; doc tests are included).
 The change must need something specific to manifest - a particular multi-step sequence of operations, an unusual layout/alignment/size, a particular settings combination (e.g. downward bumping, MIN_ALIGN, a stateful or over-aligned base allocator), a failure or panic at a particular point, or two cooperating sites that each look fine alone - NOT something ordinary use would expose at once. {hint}
 
-Also write a demonstration: a self-contained integration test file {wt}/tests/seeded_demo.rs (it may use only the crate's public API, `unsafe` allowed for the Allocator interface; custom base allocators can be written against bump_scope::alloc::Allocator) that FAILS with your change and PASSES without it. Verify both: run `cargo test --offline --test seeded_demo` with the change, then `git stash` only the src change (keep the test) and run it again, then restore the change.
+Also write a demonstration: a self-contained integration test file {wt}/tests/seeded_demo.rs (it may use only the crate's public API, `unsafe` allowed for the Allocator interface; custom base allocators can be written against bump_scope::alloc::Allocator) that FAILS with your change and PASSES without it. Verify both: run `cargo test --offline --test seeded_demo` with the change, then temporarily undo ONLY the src change with `git -C {wt} diff -- src > {wt}/patch.diff && git -C {wt} apply -R {wt}/patch.diff`, run it again, then restore with `git -C {wt} apply {wt}/patch.diff`. NEVER use `git stash` (the stash is shared between all worktrees of this repository and other agents work concurrently).
 
 When done, leave in {wt}: the source change applied in the working tree (uncommitted), tests/seeded_demo.rs, and write {wt}/SEEDED.md with: what you changed and where (file:line), why it breaks the property, what exactly is needed for it to manifest, and the exact commands + observed results (test suite summary with the change; demo fails with / passes without). Also produce {wt}/patch.diff via `git -C {wt} diff -- src > {wt}/patch.diff` (source change only, not the demo test).
 If your first idea makes an existing test fail, pick another one; do not edit or delete existing tests. Do not build anything outside {wt}. Final answer: a 5-line summary (file changed, nature of change, trigger condition, test-suite result, demo result).""")
